@@ -35,7 +35,7 @@ impl LedgerCase {
         for f in 0..k { let end = if f + 1 == k { n } else { (n * (f + 1) / k + (h / 7 + f) % 2).clamp(start, n) }; if end > start { out.push((format!("f{f}.csv"), crate::gen::to_csv(&self.rows[start..end]))); } start = end; }
         out
     }
-    pub fn run_opts(&self) -> RunOpts { RunOpts { symbol_base: crate::gen::symbol_base_strings(&self.opening), usd_years: crate::gen::usd_years(&self.rows), date_fmt: None, stale_cache_until: None } }
+    pub fn run_opts(&self) -> RunOpts { RunOpts { symbol_base: crate::gen::symbol_base_strings(&self.opening), usd_years: crate::gen::usd_years(&self.rows), date_fmt: None, stale_cache_until: None, forced_over_wrong_cache: false } }
     pub fn opening_for(&self, sec: &str) -> Option<(Rat, Rat)> { self.opening.iter().find(|o| o.0 == sec).map(|o| (Rat::parse(&o.1).unwrap(), Rat::parse(&o.2).unwrap())) }
     pub fn sec_rows(&self, sec: &str) -> Vec<HRow> { self.rows.iter().filter(|r| r.sec == sec).cloned().collect() }
     pub fn secs(&self) -> Vec<String> { let mut v: Vec<String> = self.rows.iter().map(|r| r.sec.clone()).collect(); v.sort(); v.dedup(); v }
